@@ -307,7 +307,7 @@ def sub_results(P, R, prop, tier='quick'):
     return _FWD_CACHE[k]
 
 
-def forward(P, R, src_prop, rules, dst_rule, why, skip_constructs=(), floor=1):
+def forward(P, R, src_prop, rules, dst_rule, why, skip_constructs=(), floor=1, only=None):
     """Property-level dependency: the obligations `rules` (rule ids or prefixes) of `src_prop` are necessary for this property
     too (`why`); they are reported again under `dst_rule`.  A known finding of the source property is not forwarded (it is
     listed under the source's own rule ids)."""
@@ -319,6 +319,8 @@ def forward(P, R, src_prop, rules, dst_rule, why, skip_constructs=(), floor=1):
         if not any(o.rule == r_ or (r_.endswith('*') and o.rule.startswith(r_[:-1])) for r_ in rules):
             continue
         if o.key() in known or o.construct in skip_constructs:
+            continue
+        if only is not None and not only(o):
             continue
         n += 1
         ob = R._add(dst_rule, (o.path, o.site.split('::')[-1]), None, o.status, f'[{o.rule}] {why}: {o.detail}', construct=o.construct, nontrivial=o.nontrivial)
